@@ -10,6 +10,7 @@ CONSTS = {"script": "gen_consts.py"}
 UNITS = {"script": "gen_units.py"}
 DISPLAY_CONSTS = {"script": "gen_display_consts.py"}
 REPORT_COLORS = {"script": "gen_report_colors.py"}
+DIAG_SITES = {"script": "gen_diag_sites.py"}
 UNITS_ALT = {"script": "gen_units.py", "args": ["lean/CookModel/Gen/UnitsAlt.lean", "corpus/C09/alt_units.toml", "GenAlt"]}
 
 UNITS_LAY = {"script": "gen_units.py", "args": ["lean/CookModel/Gen/UnitsLay.lean", "@repo", "GenLay", "corpus/C12/frac_layer.toml"]}
@@ -101,8 +102,8 @@ PROPS = {
         "assumptions": ['proved: gate lemmas (modifiers / range / alias gates off read as core); the main clause and the per-flag readings are tested over all 256 raw patterns against oracle and model'],
     },
     "C03": {
-        "gen": [CONSTS, CHARTABLE],
-        "trusted_base": COMMON_TB + SYNTAX_TB + ["external to the model (parameters): serde_yaml (the decoder only: the harness sends the decoded mapping or the error location, and the validator verdicts; what process_frontmatter does with them — metadata, servings, diagnostics with labels — is modelled and compared unfiltered through recipe_fm / metaonly_fm, see notes/frontmatter.md; mappings containing YAML tags stay excluded), check_std_entry on `>>` values (until the std-metadata model is plugged in its warnings are excluded from the compared reply), unicase folding (table extracted from the real crate on every run), converter key lookup (table extracted from Converter::bundled() on every run)"] + ["the worker subprocess / watchdog runner of the harness (45 s per case)"],
+        "gen": [CONSTS, CHARTABLE, DIAG_SITES],
+        "trusted_base": COMMON_TB + SYNTAX_TB + ["external to the model (parameters): serde_yaml (the decoder only: the harness sends the decoded mapping or the error location, and the validator verdicts; what process_frontmatter does with them — metadata, servings, diagnostics with labels — is modelled and compared unfiltered through recipe_fm / metaonly_fm, see notes/frontmatter.md; mappings containing YAML tags stay excluded), check_std_entry on `>>` values (until the std-metadata model is plugged in its warnings are excluded from the compared reply), unicase folding (table extracted from the real crate on every run), converter key lookup (table extracted from Converter::bundled() on every run)"] + ["the worker subprocess / watchdog runner of the harness (45 s per case)", "translators/gen_diag_sites.py (every `.error(..)` / `.warn(..)` call of src/**/*.rs with the macro that builds its argument, and the severity each sink's debug assertion demands -> Gen/DiagSites.lean; a textual scraper: sites whose builder it cannot read are listed as undetermined and not covered by C03_diag_sink_severity_sites)"],
         "assumptions": ["proved: text assembly never asserts on lexed runs, blocks handed to BlockParser::new are non-empty and without trailing newline, pull_line makes progress; the rest of C03_statement (the panic flag of the model is never set) is compared with the real code's panics per run", 'cannot be exhibited by the model, only observed by the worker/watchdog runs: stack exhaustion, allocation failure, time complexity, panics inside dependencies'],
     },
     "C05": {
